@@ -23,6 +23,7 @@ bad=0
 for d in sorted(glob.glob(V+"/controls/*/")):
     name=os.path.basename(d.rstrip("/"))
     if flt not in name: continue
+    if name < _os.environ.get("CONTROLS_FROM", ""): continue  # resume a sweep that was interrupted
     if not os.path.exists(d+"patch.diff"):
         print("%-10s retired"%name); continue
     t=tempfile.mkdtemp(prefix="avfs-ctl-")
